@@ -423,5 +423,5 @@ func ruleProbeObs(p *Prog, r *Report) {
 }
 
 func init() {
-	register("C20", "First clause (equal-comparing versions are indistinguishable to ranges), decided structurally: (R-PROBE-OBS) on every path from Contains the probe version is observed only as an operand of Compare or through scalar fields on which equal-comparing versions necessarily agree (the key set is read off Compare's decision table); text (String()/original) and sequence fields are not observable; named exceptions: pypi '===' (scoped out) and gem '~>'. With R-OPSWITCH (C02) every comparator denotes an up- or down-set of Compare's preorder, so comparator-only conjunctions are convex given (R-PREORDER, re-run here) that Compare is a total preorder. Convexity of the field-equality shorthands (cargo, conan, gem, composer carets/tildes) is not decided.", ruleProbeObs, rulePreorder)
+	register("C20", "First clause (equal-comparing versions are indistinguishable to ranges), decided structurally: (R-PROBE-OBS) on every path from Contains the probe version is observed only as an operand of Compare or through scalar fields on which equal-comparing versions necessarily agree (the key set is read off Compare's decision table); text (String()/original) and sequence fields are not observable; named exceptions: pypi '===' (scoped out) and gem '~>'. With R-OPSWITCH (C02) every comparator denotes an up- or down-set of Compare's preorder, so comparator-only conjunctions are convex given (R-PREORDER, re-run here) that Compare is a total preorder. A necessary condition of convexity for the field-equality shorthands is decided by R-FIELD-PREFIX (c20b.go); that such a predicate is convex is not.", ruleProbeObs, rulePreorder)
 }
